@@ -182,6 +182,8 @@ fn func_random(ctx: &EvalContext, args: &[Expr]) -> Result<i64, ExprError> {
         return Err(ExprErrorKind::EmptyRandomRange(max).into());
     }
     let value = ctx.random(1..max);
+    #[cfg(feature = "verif-hooks")]
+    crate::verif::log_draw(max, value);
     Ok(value)
 }
 
